@@ -793,15 +793,7 @@ def rule_lfda(repo, rep):
 from ..ratfunc import Rat, LinM, eval_expr
 
 
-def rule_lfda_scatter(repo, rep):
-  R = 'R-FORM:lfda-scatter-accumulation'
-  rep.rule(R, 'the statements accumulating LFDA\'s scatter matrices, '
-           'evaluated as linear combinations of the atoms G_c, Xc^T Xc, '
-           's_c s_c^T, s s^T with rational coefficients in n and n_c, equal '
-           'the pairwise-defined local scatters: S_w = sum_c G_c / n_c and '
-           'S_b = sum_c [G_c / n + (1 - n_c / n) Xc^T Xc + s_c s_c^T / n] - '
-           's s^T / n - S_w (reference: the algebraic expansion of '
-           '1/2 sum_ij W_ij (x_i - x_j)(x_i - x_j)^T)')
+def _lfda_roles(repo):
   c = repo.get_class('LFDA')
   f0 = repo.resolve_method(c, 'fit')
   # roles are discovered from definitions and uses, then the body is matched
@@ -861,6 +853,19 @@ def rule_lfda_scatter(repo, rep):
               x.func.value.id in assigned and \
               x.func.value.id not in roles:
         roles[x.func.value.id] = 'A'
+  return f0, roles
+
+
+def rule_lfda_scatter(repo, rep):
+  R = 'R-FORM:lfda-scatter-accumulation'
+  rep.rule(R, 'the statements accumulating LFDA\'s scatter matrices, '
+           'evaluated as linear combinations of the atoms G_c, Xc^T Xc, '
+           's_c s_c^T, s s^T with rational coefficients in n and n_c, equal '
+           'the pairwise-defined local scatters: S_w = sum_c G_c / n_c and '
+           'S_b = sum_c [G_c / n + (1 - n_c / n) Xc^T Xc + s_c s_c^T / n] - '
+           's s^T / n - S_w (reference: the algebraic expansion of '
+           '1/2 sum_ij W_ij (x_i - x_j)(x_i - x_j)^T)')
+  f0, roles = _lfda_roles(repo)
   f = astutil.role_view(f0, roles)
   if f is None:
     rep.unknown(R, 'LFDA.fit', site(f0), 'roles %s cannot be given canonical '
@@ -992,13 +997,937 @@ def rule_lfda_scatter(repo, rep):
                 '(statement: %s)' % (total, want, ast.unparse(s_)))
 
 
+# ------------------------------------------------ LFDA affinity (local scaling)
+def _flat_body(stmts):
+  """statements with `with` blocks opened (they do not change data flow)"""
+  out = []
+  for s_ in stmts:
+    if isinstance(s_, ast.With):
+      out.extend(_flat_body(s_.body))
+    else:
+      out.append(s_)
+  return out
+
+
+def _upward_exposed(loop):
+  """names read in a loop body before being (re)assigned there and also
+  assigned in the body: their value is carried from one iteration to the
+  next"""
+  assigned = set()
+  carried = {}
+
+  def reads(e):
+    return [x for x in ast.walk(e) if isinstance(x, ast.Name) and
+            isinstance(x.ctx, ast.Load)]
+  body_assigned = set()
+  for s_ in ast.walk(loop):
+    if isinstance(s_, (ast.Assign, ast.AugAssign)):
+      tg = s_.targets if isinstance(s_, ast.Assign) else [s_.target]
+      for t in tg:
+        for x in ast.walk(t):
+          if isinstance(x, ast.Name) and isinstance(x.ctx, ast.Store):
+            body_assigned.add(x.id)
+  for s_ in _flat_body(loop.body):
+    if isinstance(s_, ast.Assign):
+      for x in reads(s_.value):
+        if x.id not in assigned and x.id in body_assigned:
+          carried.setdefault(x.id, s_)
+      for t in s_.targets:
+        for x in ast.walk(t):
+          if isinstance(x, ast.Name) and isinstance(x.ctx, ast.Store):
+            assigned.add(x.id)
+    elif isinstance(s_, ast.AugAssign):
+      pass          # accumulators are carried by design
+    else:
+      for x in reads(s_):
+        if x.id not in assigned and x.id in body_assigned:
+          carried.setdefault(x.id, s_)
+  return carried
+
+
+def rule_lfda_affinity(repo, rep):
+  R = 'R-FORM:lfda-local-scaling-affinity'
+  rep.rule(R, 'in LFDA\'s class loop the rows of one class are selected '
+           '(labels == class index), D = their squared Euclidean distance '
+           'matrix, sigma = sqrt of an order statistic of D at a rank clipped '
+           'to the class size (per class: the clipped rank is not carried to '
+           'the next class), the affinity is exp(-D / (sigma_i sigma_j)) with '
+           'the 0/0 entries set to 0 - decided by evaluating the loop body in '
+           'a small algebra of powers of distances')
+  f0, roles = _lfda_roles(repo)
+  f = astutil.role_view(f0, roles)
+  if f is None:
+    rep.unknown(R, 'LFDA.fit', site(f0), 'roles not assignable')
+    return
+  rep.analysed(f0)
+  loops = [n for n in ast.walk(f.node) if isinstance(n, ast.For) and
+           any(isinstance(s, ast.AugAssign) and
+               ast.unparse(s.target) in ('tSb', 'tSw') for s in n.body)]
+  if len(loops) != 1 or not isinstance(loops[0].target, ast.Name):
+    rep.unknown(R, 'LFDA.fit', site(f0), 'class loop not recognised')
+    return
+  loop = loops[0]
+
+  def dn(e):
+    d = repo.dotted(f.module, e)
+    return canon(d) if d else None
+
+  # labels: (U, y) = np.unique(y0, return_inverse=True); loop over
+  # range(len(U)) compares with the inverse indices
+  lab_ok = None
+  env = {'X': ('X',)}
+  uniq = None
+  for s_ in f.node.body:
+    if s_ is loop:
+      break
+    if isinstance(s_, ast.Assign) and isinstance(s_.value, ast.Call) and \
+            dn(s_.value.func) == canon('numpy.unique'):
+      kw = {k.arg: ast.unparse(k.value) for k in s_.value.keywords}
+      tg = s_.targets[0]
+      if isinstance(tg, ast.Tuple) and len(tg.elts) == 2 and \
+              kw.get('return_inverse') == 'True' and len(kw) == 1:
+        uniq = (ast.unparse(tg.elts[0]), ast.unparse(tg.elts[1]))
+        env[uniq[1]] = ('y',)
+      elif isinstance(tg, ast.Name) and not kw:
+        uniq = (tg.id, None)
+  it = loop.iter
+  cvar = loop.target.id
+  if uniq and uniq[1] and isinstance(it, ast.Call) and \
+          ast.unparse(it.func) == 'range' and len(it.args) == 1:
+    cnt = astutil.unfold(it.args[0], f.node.body, loop.lineno)
+    txt = ast.unparse(cnt)
+    if txt in ('len(%s)' % uniq[0], '%s.shape[0]' % uniq[0],
+               '%s.size' % uniq[0]):
+      lab_ok = True
+      env[cvar] = ('c',)
+    else:
+      lab_ok = False
+      why = 'the loop runs over range(%s), not over the %s classes' % (
+          txt, uniq[0])
+  if lab_ok is None:
+    rep.unknown(R, 'LFDA.fit:class-loop', site(f, loop), 'labels / class '
+                'loop idiom not recognised (expected np.unique(y, '
+                'return_inverse=True) and range(number of classes))')
+    return
+  if not lab_ok:
+    rep.refuted(R, 'LFDA.fit:class-loop', site(f, loop), why)
+    return
+  rep.derived(R, 'LFDA.fit:class-loop', site(f, loop))
+
+  def num(e):
+    try:
+      v = ast.literal_eval(e)
+      return v if isinstance(v, (int, float)) and not isinstance(v, bool) \
+          else None
+    except Exception:
+      return None
+
+  def scale_pow(v, c):
+    if v[0] in ('D', 'kth', 'LS', 'order'):
+      return (v[0], v[1] * Fraction(c)) + tuple(v[2:])
+    return ('?', 'power')
+
+  def mkq(sgn, p, q):
+    return ('Q', sgn, Fraction(p), Fraction(q))
+
+  def asq(v):
+    if v[0] == 'Q':
+      return v
+    if v[0] == 'D':
+      return mkq(1, v[1], 0)
+    if v[0] == 'LS':
+      return mkq(1, 0, -v[1])
+    return None
+
+  def ev(e):
+    if isinstance(e, ast.Name):
+      return env.get(e.id, ('?', e.id))
+    n_ = num(e)
+    if n_ is not None:
+      return ('num', n_)
+    if isinstance(e, ast.Constant):
+      return ('const', e.value)
+    if isinstance(e, ast.Compare) and len(e.ops) == 1:
+      l, r = ev(e.left), ev(e.comparators[0])
+      op = e.ops[0]
+      if {l, r} == {('y',), ('c',)} and isinstance(op, (ast.Eq, ast.NotEq)):
+        return ('sel', isinstance(op, ast.Eq))
+      for a, b, flip in ((l, r, False), (r, l, True)):
+        if a[0] in ('LS', 'kth') and b == ('num', 0):
+          k_ = type(op)
+          if flip:
+            k_ = {ast.Lt: ast.Gt, ast.Gt: ast.Lt, ast.LtE: ast.GtE,
+                  ast.GtE: ast.LtE}.get(k_, k_)
+          if k_ in (ast.Eq, ast.LtE):
+            return ('zs', True)        # zero scale
+          if k_ in (ast.NotEq, ast.Gt):
+            return ('zs', False)       # positive scale
+      return ('?', 'compare')
+    if isinstance(e, ast.UnaryOp) and isinstance(e.op, ast.USub):
+      v = asq(ev(e.operand))
+      return mkq(-v[1], v[2], v[3]) if v else ('?', 'neg')
+    if isinstance(e, ast.UnaryOp) and isinstance(e.op, (ast.Invert, ast.Not)):
+      v = ev(e.operand)
+      if v[0] in ('zs', 'sel', 'bad'):
+        return (v[0], not v[1])
+      return ('?', 'invert')
+    if isinstance(e, ast.BinOp):
+      l, r = ev(e.left), ev(e.right)
+      if isinstance(e.op, ast.Pow) and r[0] == 'num':
+        return scale_pow(l, r[1])
+      if isinstance(e.op, (ast.Add, ast.Sub)):
+        if l == ('nc',) and r[0] == 'num':
+          return ('ncm', r[1] if isinstance(e.op, ast.Sub) else -r[1])
+        if l[0] == 'ncm' and r[0] == 'num':
+          return ('ncm', l[1] + (r[1] if isinstance(e.op, ast.Sub)
+                                 else -r[1]))
+        return ('?', 'sum')
+      if isinstance(e.op, (ast.Div, ast.Mult)):
+        # outer product spelled by broadcasting
+        if isinstance(e.op, ast.Mult) and \
+                {l[0], r[0]} == {'kthcol', 'kthrow'} and l[1:] == r[1:]:
+          return ('LS', l[1])
+        a, b = asq(l), asq(r)
+        if a and b:
+          if isinstance(e.op, ast.Div):
+            return mkq(a[1] * b[1], a[2] - b[2], a[3] - b[3])
+          return mkq(a[1] * b[1], a[2] + b[2], a[3] + b[3])
+        return ('?', 'product')
+      return ('?', 'binop')
+    if isinstance(e, ast.Subscript):
+      b = ev(e.value)
+      parts = e.slice.elts if isinstance(e.slice, ast.Tuple) else [e.slice]
+      full = lambda p: isinstance(p, ast.Slice) and p.lower is None and \
+          p.upper is None and p.step is None
+      if b == ('X',):
+        pv = ev(parts[0])
+        if pv[0] == 'sel' and all(full(p) for p in parts[1:]):
+          return ('Xc',) if pv[1] else ('Xrest',)
+        return ('?', 'rows')
+      if b[0] == 'sel' and num(e.slice) == 0:
+        return b                      # np.where(mask)[0]
+      if b[0] == 'order':
+        picks = [p for p in parts if not full(p)]
+        if len(picks) == 1 and ev(picks[0]) == b[2]:
+          return ('kth', b[1], b[2])
+        return ('?', 'rank selection')
+      if b[0] == 'kth':
+        st = [ast.unparse(p) for p in parts]
+        if st in (['slice(None, None, None)', 'None'], [':', 'None']) or \
+                (len(parts) == 2 and full(parts[0]) and
+                 ast.unparse(parts[1]) in ('None', 'np.newaxis')):
+          return ('kthcol',) + b[1:]
+        if len(parts) == 2 and full(parts[1]) and \
+                ast.unparse(parts[0]) in ('None', 'np.newaxis'):
+          return ('kthrow',) + b[1:]
+      return ('?', 'subscript')
+    if isinstance(e, ast.Attribute) and e.attr == 'T':
+      b = ev(e.value)
+      return b if b[0] in ('D', 'LS', 'A', 'Q') else ('?', 'T')
+    if isinstance(e, ast.Call):
+      d = dn(e.func)
+      kw = {k.arg: k.value for k in e.keywords if k.arg}
+      args = list(e.args)
+      if d is None and isinstance(e.func, ast.Name) and \
+              e.func.id in ('min', 'max', 'int', 'len'):
+        d = e.func.id
+      if d is None:
+        return ('?', 'call %s' % ast.unparse(e.func))
+      short = d.rsplit('.', 1)[-1]
+      if short in ('flatnonzero', 'nonzero', 'where') and len(args) == 1:
+        return ev(args[0])
+      if short in ('pairwise_distances', 'euclidean_distances', 'cdist'):
+        pos = [ev(a) for a in args[:2]]
+        if 'Y' in kw:
+          pos.append(ev(kw['Y']))
+        pts = [v for v in pos if v[0] in ('Xc', 'Xrest', 'X')]
+        if not pts or any(v != ('Xc',) for v in pts):
+          if pts and all(v[0] in ('Xrest', 'X') for v in pts):
+            return ('bad', 'distances of %s instead of the rows of the class'
+                    % pts[0][0])
+          return ('?', 'distance arguments')
+        metric = None
+        if short == 'cdist' and len(args) >= 3:
+          metric = args[2]
+        if short == 'pairwise_distances' and len(args) >= 3:
+          metric = args[2]
+        metric = kw.get('metric', metric)
+        mt = 'euclidean'
+        if metric is not None:
+          if not (isinstance(metric, ast.Constant) and
+                  isinstance(metric.value, str)):
+            return ('?', 'metric')
+          mt = metric.value
+        sq = kw.get('squared')
+        sqv = False
+        if sq is not None:
+          if not (isinstance(sq, ast.Constant) and
+                  isinstance(sq.value, bool)):
+            return ('?', 'squared')
+          sqv = sq.value
+        if mt in ('l2', 'euclidean'):
+          return ('D', Fraction(2 if sqv else 1))
+        if mt == 'sqeuclidean' and sq is None:
+          return ('D', Fraction(2))
+        return ('bad', 'distances in the metric %r' % mt)
+      if short == 'squareform' and len(args) == 1:
+        return ev(args[0])
+      if short == 'pdist' and args and ev(args[0]) == ('Xc',):
+        metric = kw.get('metric', args[1] if len(args) > 1 else None)
+        if metric is None:
+          return ('D', Fraction(1))
+        if isinstance(metric, ast.Constant) and metric.value in (
+                'euclidean', 'sqeuclidean'):
+          return ('D', Fraction(2 if metric.value == 'sqeuclidean' else 1))
+        return ('?', 'metric')
+      if short == 'sqrt' and len(args) == 1:
+        return scale_pow(ev(args[0]), Fraction(1, 2))
+      if short == 'square' and len(args) == 1:
+        return scale_pow(ev(args[0]), 2)
+      if short == 'power' and len(args) == 2 and num(args[1]) is not None:
+        return scale_pow(ev(args[0]), num(args[1]))
+      if short in ('partition', 'sort') and args:
+        v = ev(args[0])
+        if v[0] != 'D':
+          return ('?', 'ordered array')
+        rank = ev(args[1]) if short == 'partition' and len(args) > 1 else \
+            (ev(kw['kth']) if 'kth' in kw else None)
+        return ('order', v[1], rank)
+      if short in ('outer',) and len(args) == 2:
+        a, b = ev(args[0]), ev(args[1])
+        if a[0] == b[0] == 'kth' and a[1:] == b[1:]:
+          return ('LS', a[1])
+        return ('?', 'outer')
+      if short == 'negative' and len(args) == 1:
+        v = asq(ev(args[0]))
+        return mkq(-v[1], v[2], v[3]) if v else ('?', 'neg')
+      if short in ('divide', 'true_divide') and len(args) == 2:
+        a, b = asq(ev(args[0])), asq(ev(args[1]))
+        if a and b:
+          return mkq(a[1] * b[1], a[2] - b[2], a[3] - b[3])
+        return ('?', 'divide')
+      if short == 'exp' and len(args) == 1:
+        v = asq(ev(args[0]))
+        if v is None:
+          return ('?', 'exp argument')
+        return ('A', v, False)
+      if short == 'nan_to_num' and len(args) == 1:
+        v = ev(args[0])
+        return ('A', v[1], True) if v[0] == 'A' else ('?', 'nan_to_num')
+      if short == 'where' and len(args) == 3:
+        c_, a, b = ev(args[0]), ev(args[1]), ev(args[2])
+        if c_[0] == 'zs':
+          zero, aff = (a, b) if c_[1] else (b, a)
+          if zero == ('num', 0) and aff[0] == 'A':
+            return ('A', aff[1], True)
+          if aff == ('num', 0) and zero[0] == 'A':
+            return ('A', zero[1], 'inverted')
+        return ('?', 'where')
+      if short in ('isnan',) and len(args) == 1 and ev(args[0])[0] == 'A':
+        return ('zs', True)
+      if short in ('isfinite',) and len(args) == 1 and \
+              ev(args[0])[0] == 'A':
+        return ('zs', False)
+      if d == 'min' or short == 'minimum':
+        vals = [ev(a) for a in args]
+        bounds = [v[1] for v in vals if v[0] == 'ncm'] + \
+                 [0 for v in vals if v == ('nc',)] + \
+                 [v[1] for v in vals if v[0] == 'k' and v[1] is not None]
+        if bounds:
+          return ('k', max(bounds))
+        return ('k', None)
+      if d == 'int' and len(args) == 1:
+        return ev(args[0])
+      if d == 'len' and len(args) == 1 and ev(args[0]) == ('Xc',):
+        return ('nc',)
+      if short in ('asarray', 'array', 'ascontiguousarray', 'copy') and args:
+        return ev(args[0])
+      return ('?', 'call %s' % short)
+    if isinstance(e, ast.Attribute) and e.attr == 'shape':
+      return ('shape', ev(e.value))
+    return ('?', type(e).__name__)
+
+  # shape[0] of the class rows
+  def ev_stmt_value(e):
+    if isinstance(e, ast.Subscript) and isinstance(e.value, ast.Attribute) \
+            and e.value.attr == 'shape' and num(e.slice) == 0 and \
+            ev(e.value.value) == ('Xc',):
+      return ('nc',)
+    return ev(e)
+
+  guard = {}
+  a_site = None
+  carried = _upward_exposed(loop)
+  for s_ in _flat_body(loop.body):
+    if isinstance(s_, ast.Assign) and len(s_.targets) == 1:
+      tg = s_.targets[0]
+      if isinstance(tg, ast.Name):
+        env[tg.id] = ev_stmt_value(s_.value)
+        if env[tg.id][0] == 'A':
+          a_site = s_
+      elif isinstance(tg, ast.Subscript) and isinstance(tg.value, ast.Name) \
+              and env.get(tg.value.id, ('?',))[0] == 'A':
+        m, v = ev(tg.slice), ev(s_.value)
+        guard[tg.value.id] = (m, v, s_)
+  # which names carry the affinity into the scatter: role 'A'
+  A = env.get('A', ('?', 'no affinity'))
+  xc = env.get('Xc', ('?', 'no class rows'))
+  key = 'LFDA.fit:class-rows'
+  if xc == ('Xc',):
+    rep.derived(R, key, site(f, loop))
+  elif xc == ('Xrest',):
+    rep.refuted(R, key, site(f, loop), 'the rows selected for class c are '
+                'those whose label differs from c')
+  else:
+    rep.unknown(R, key, site(f, loop), 'selection of the class rows: %s'
+                % (xc,))
+  key = 'LFDA.fit:affinity'
+  if A[0] != 'A':
+    bad = [v for v in env.values() if v[0] == 'bad']
+    if bad:
+      rep.refuted(R, key, site(f, loop), bad[0][1])
+    else:
+      rep.unknown(R, key, site(f, loop), 'affinity not derivable: %s' % (A,))
+    return
+  q = A[1]
+  want = mkq(-1, 2, 1)
+  if q == want:
+    rep.derived(R, key, site(f, a_site or loop),
+                sample=dict(rule=R, affinity='exp(-D^2 / (sigma_i sigma_j))'))
+  else:
+    rep.refuted(R, key, site(f, a_site or loop), 'the affinity is exp(%s D^%s '
+                '/ (sigma_i sigma_j)^%s) with D the Euclidean distance and '
+                'sigma the k-th neighbour distance; local scaling is '
+                'exp(-D^2 / (sigma_i sigma_j))'
+                % ('+' if q[1] > 0 else '-', q[2], q[3]))
+  # 0/0 entries
+  key = 'LFDA.fit:zero-scale-entries'
+  g = guard.get('A')
+  if A[2] is True:
+    rep.derived(R, key, site(f, a_site or loop))
+  elif A[2] == 'inverted':
+    rep.refuted(R, key, site(f, a_site or loop), 'the affinity is kept where '
+                'the local scale is zero and zeroed elsewhere')
+  elif g is None:
+    rep.refuted(R, key, site(f, a_site or loop), 'entries with zero local '
+                'scale (0/0 = NaN, e.g. a class with one point or duplicated '
+                'points) are not set to 0: the scatters become NaN')
+  else:
+    m, v, st_ = g
+    if m == ('zs', True) and v == ('num', 0):
+      rep.derived(R, key, site(f, st_))
+    elif m == ('zs', False):
+      rep.refuted(R, key, site(f, st_), 'the affinity is overwritten where '
+                  'the local scale is positive: %s' % ast.unparse(st_))
+    else:
+      rep.unknown(R, key, site(f, st_), 'guard %s' % ast.unparse(st_))
+  # the rank
+  key = 'LFDA.fit:rank-within-class'
+  ranks = []
+  for s_ in ast.walk(loop):
+    if isinstance(s_, ast.Call) and (dn(s_.func) or '').rsplit('.', 1)[-1] \
+            in ('partition',) and len(s_.args) > 1:
+      ranks.append((s_, s_.args[1]))
+  if not ranks:
+    rep.unknown(R, key, site(f, loop), 'no partition call')
+    return
+  for call, rk in ranks:
+    v = ev(rk)
+    if v[0] == '?':
+      v = ('k', None)
+    if v[0] != 'k':
+      rep.unknown(R, key, site(f, call), 'rank %s' % (v,))
+    elif v[1] is None:
+      rep.refuted(R, key, site(f, call), 'the rank %s is not clipped to the '
+                  'class size: np.partition raises for a class with at most '
+                  'k points' % ast.unparse(rk))
+    elif v[1] < 1:
+      rep.refuted(R, key, site(f, call), 'the rank may reach nc - %s, beyond '
+                  'the last index nc - 1 of a class with nc points' % v[1])
+    else:
+      names = [x.id for x in ast.walk(rk) if isinstance(x, ast.Name)]
+      loopc = [nm for nm in names if nm in carried]
+      if loopc:
+        rep.refuted(R, 'LFDA.fit:rank-per-class', site(f, carried[loopc[0]]),
+                    'the clipped rank %s is carried to the next class (%s): '
+                    'after a small class every later class uses the small '
+                    'rank, so the result depends on the order of the class '
+                    'labels' % (loopc[0], ast.unparse(carried[loopc[0]])))
+      else:
+        rep.derived(R, 'LFDA.fit:rank-per-class', site(f, call))
+      rep.derived(R, key, site(f, call))
+
+
+def rule_lfda_solver(repo, rep):
+  R = 'R-FORM:lfda-generalised-eigenproblem'
+  rep.rule(R, 'the matrices handed to the eigen-solver are the accumulated '
+           'scatters up to symmetrisation (a S + b S^T with a + b = 1), and '
+           'every solver call in lfda._eigh poses the problem (S_b, S_w) in '
+           'this order, asking for the largest eigenvalues')
+  f0, roles = _lfda_roles(repo)
+  f = astutil.role_view(f0, roles)
+  if f is None:
+    rep.unknown(R, 'LFDA.fit', site(f0), 'roles not assignable')
+    return
+  from ..ncalg import NC, NCEval
+  from ..ratfunc import Rat
+  loops = [n for n in ast.walk(f.node) if isinstance(n, ast.For) and
+           any(isinstance(s, ast.AugAssign) and
+               ast.unparse(s.target) in ('tSb', 'tSw') for s in n.body)]
+  calls = [n for n in ast.walk(f.node) if isinstance(n, ast.Call) and
+           (repo.dotted(f.module, n.func) or '').endswith('lfda._eigh')]
+  if len(loops) != 1 or len(calls) != 1:
+    rep.unknown(R, 'LFDA.fit', site(f0), 'class loop / solver call not found')
+    return
+  loop, call = loops[0], calls[0]
+
+  def canon_of(e):
+    d = repo.dotted(f.module, e)
+    return canon(d) if d else None
+  # after the loop and the final adjustment of tSb, evaluate the remaining
+  # re-assignments of tSb / tSw in terms of their incoming values
+  for name in ('tSb', 'tSw'):
+    S = NC.atom('S')
+    evl = NCEval({name: S}, {}, canon_of)
+    last = None
+    opaque = False
+    for s_ in f.node.body:
+      if getattr(s_, 'lineno', 0) <= loop.end_lineno or \
+              s_.lineno >= call.lineno:
+        continue
+      if isinstance(s_, ast.Assign) and len(s_.targets) == 1 and \
+              ast.unparse(s_.targets[0]) == name:
+        other = 'tSw' if name == 'tSb' else 'tSb'
+        if other in [x.id for x in ast.walk(s_.value)
+                     if isinstance(x, ast.Name)]:
+          # the final adjustment (decided by the scatter rule): restart
+          evl.mats[name] = S
+          continue
+        v = evl.ev(s_.value)
+        last = s_
+        if isinstance(v, NC):
+          evl.mats[name] = v
+        else:
+          opaque = True
+      elif isinstance(s_, ast.AugAssign) and \
+              ast.unparse(s_.target) == name:
+        evl.mats[name] = S
+    key = 'LFDA.fit:%s-symmetrised' % name
+    v = evl.mats[name]
+    if opaque or not isinstance(v, NC):
+      rep.unknown(R, key, site(f, last or call), 'not derivable')
+      continue
+    tot = Rat.const(0)
+    only = True
+    for w, c in v.terms.items():
+      if len(w) == 1 and w[0][0] == 'm' and w[0][1] == 'S':
+        tot = tot + c
+      else:
+        only = False
+    if only and (tot - Rat.const(1)).is_zero():
+      rep.derived(R, key, site(f, last or call),
+                  sample=dict(rule=R, value=repr(v)))
+    elif only:
+      rep.refuted(R, key, site(f, last or call), 'the solver receives %r of '
+                  'the accumulated scatter S (S is symmetric by construction, '
+                  'so this is %r * S, not S)' % (v, tot))
+    else:
+      rep.unknown(R, key, site(f, last or call), 'value %r' % (v,))
+  # the solver calls
+  g = repo.get_func('lfda._eigh')
+  rep.analysed(g)
+  ps = g.params()
+  table = {'scipy.sparse.linalg.eigsh': ('A', 'M', 2),
+           'scipy.linalg.eigh': ('a', 'b', 1), 'scipy.linalg.eig': ('a', 'b', 1),
+           'numpy.linalg.eigh': None, 'numpy.linalg.eig': None}
+  nsolve = 0
+  for n in ast.walk(g.node):
+    if not isinstance(n, ast.Call):
+      continue
+    d = repo.dotted(g.module, n.func) or ''
+    hit = [k for k in table if canon(d) == canon(k)]
+    if not hit:
+      continue
+    nsolve += 1
+    key = 'lfda._eigh:%s' % hit[0].rsplit('.', 1)[1]
+    spec = table[hit[0]]
+    if spec is None:
+      rep.refuted(R, key, site(g, n), '%s solves an ordinary eigenproblem: '
+                  'S_w is ignored' % hit[0])
+      continue
+    kw = {k.arg: k.value for k in n.keywords if k.arg}
+    a = n.args[0] if n.args else kw.get(spec[0])
+    b = n.args[spec[2]] if len(n.args) > spec[2] else kw.get(spec[1])
+    ta = ast.unparse(a) if a is not None else None
+    tb = ast.unparse(b) if b is not None else None
+    if (ta, tb) == (ps[0], ps[1]):
+      which = kw.get('which')
+      if hit[0].endswith('eigsh') and not (
+              isinstance(which, ast.Constant) and which.value == 'LA'):
+        rep.refuted(R, key, site(g, n), 'eigsh is asked for which=%s, the '
+                    'leading eigenvectors are the largest algebraic (LA)'
+                    % (ast.unparse(which) if which is not None else 'LM '
+                       '(default)'))
+      else:
+        rep.derived(R, key, site(g, n))
+    elif (ta, tb) == (ps[1], ps[0]):
+      rep.refuted(R, key, site(g, n), 'the generalised problem is posed as '
+                  '(%s, %s): within- and between-class scatter exchanged'
+                  % (ta, tb))
+    elif tb is None:
+      rep.refuted(R, key, site(g, n), 'no second matrix: ordinary '
+                  'eigenproblem of %s' % ta)
+    else:
+      rep.unknown(R, key, site(g, n), 'arguments (%s, %s)' % (ta, tb))
+  rep.floor('LFDA eigen-solver calls', nsolve, 3)
+
+
+
+# ------------------------------------------------ branch conditions
+class _DimSubst(ast.NodeTransformer):
+  """replace size / shape expressions by the numbers of a representative"""
+
+  def __init__(self, names, d, square=None):
+    self.names = names        # {name: int}
+    self.d = d
+    self.square = square or ()
+
+  def visit_Name(self, n):
+    if isinstance(n.ctx, ast.Load) and n.id in self.names:
+      return ast.copy_location(ast.Constant(self.names[n.id]), n)
+    return n
+
+  def visit_Attribute(self, n):
+    self.generic_visit(n)
+    if n.attr == 'size' and ast.unparse(n.value) in self.square:
+      return ast.copy_location(ast.Constant(self.d * self.d), n)
+    if n.attr == 'shape' and ast.unparse(n.value) in self.square:
+      return ast.copy_location(
+          ast.Tuple([ast.Constant(self.d), ast.Constant(self.d)],
+                    ast.Load()), n)
+    return n
+
+  def visit_Subscript(self, n):
+    txt = ast.unparse(n)
+    if isinstance(n.value, ast.Attribute) and n.value.attr == 'shape':
+      base = ast.unparse(n.value.value)
+      idx = ast.unparse(n.slice)
+      if base in self.square and idx in ('0', '1', '-1'):
+        return ast.copy_location(ast.Constant(self.d), n)
+      if base == 'X' and idx in ('1', '-1'):
+        return ast.copy_location(ast.Constant(self.d), n)
+    self.generic_visit(n)
+    return n
+
+  def visit_Call(self, n):
+    if isinstance(n.func, ast.Name) and n.func.id == 'len' and \
+            len(n.args) == 1 and ast.unparse(n.args[0]) in self.square:
+      return ast.copy_location(ast.Constant(self.d), n)
+    self.generic_visit(n)
+    return n
+
+
+def rule_covariance_branch(repo, rep):
+  R = 'R-FORM:covariance-scalar-branch'
+  rep.rule(R, 'an element-wise reciprocal 1 / M stands for the inverse only '
+           'of a 1 x 1 matrix: the statement is unreachable for d >= 2 '
+           '(branch tests interpreted on d = 1, 2, 3, 5)')
+  from .. import guardeval
+  import copy
+  f = repo.resolve_method(repo.get_class('Covariance'), 'fit')
+  rep.analysed(f)
+  # square d x d matrices: names assigned from cov / atleast_2d(cov)
+  square = set()
+  for n in ast.walk(f.node):
+    if isinstance(n, ast.Assign) and isinstance(n.targets[0], ast.Name) and \
+            any(isinstance(c, ast.Call) and
+                canon(repo.dotted(f.module, c.func) or '') ==
+                canon('numpy.cov') for c in ast.walk(n.value)):
+      square.add(n.targets[0].id)
+  recips = [n for n in ast.walk(f.node) if isinstance(n, ast.BinOp) and
+            isinstance(n.op, ast.Div) and
+            isinstance(n.right, ast.Name) and n.right.id in square]
+  recips += [n for n in ast.walk(f.node) if isinstance(n, ast.Call) and
+             canon(repo.dotted(f.module, n.func) or '') ==
+             canon('numpy.reciprocal')]
+  if not recips:
+    rep.derived(R, 'Covariance.fit:no-reciprocal', site(f))
+    return
+  for node in recips:
+    verdicts = {}
+    for d in (1, 2, 3, 5):
+      def tev(test, d=d):
+        t2 = _DimSubst({}, d, square).visit(copy.deepcopy(test))
+        return guardeval.ev(t2, {})
+      verdicts[d] = guardeval.reaches(f.node.body, node, tev)
+    key = 'Covariance.fit:reciprocal'
+    bad = [d for d in (2, 3, 5) if verdicts[d] == 'yes']
+    maybe = [d for d in (2, 3, 5) if verdicts[d] == 'maybe']
+    if bad:
+      rep.refuted(R, key, site(f, node), '%s is executed for d = %s: the '
+                  'element-wise reciprocal of a %sx%s covariance is not its '
+                  'inverse' % (ast.unparse(node), bad[0], bad[0], bad[0]))
+    elif maybe:
+      rep.unknown(R, key, site(f, node), 'guard of %s not decided'
+                  % ast.unparse(node))
+    else:
+      rep.derived(R, key, site(f, node),
+                  sample=dict(rule=R, reachable={str(k): v for k, v in
+                                                 verdicts.items()}))
+
+
+def _selection_kind(repo, f, expr):
+  """np.argsort(v)[:k] -> ('smallest', v); argsort(-v)[:k], argsort(v)[::-1]
+  [:k], argsort(v)[-k:] -> ('largest', v); else None"""
+  sl = []
+  e = expr
+  while isinstance(e, ast.Subscript):
+    sl.append(e.slice)
+    e = e.value
+  if not (isinstance(e, ast.Call) and
+          (repo.dotted(f.module, e.func) or '').endswith('argsort') and
+          e.args):
+    return None
+  sl.reverse()
+  arg = e.args[0]
+  neg = isinstance(arg, ast.UnaryOp) and isinstance(arg.op, ast.USub)
+  if neg:
+    arg = arg.operand
+  largest_first = neg
+  picked = None
+  for s_ in sl:
+    if not isinstance(s_, ast.Slice):
+      return None
+    if s_.lower is None and s_.upper is None and s_.step is not None and \
+            ast.unparse(s_.step) == '-1':
+      if picked:
+        return None
+      largest_first = not largest_first
+    elif s_.lower is None and s_.step is None and s_.upper is not None and \
+            not (isinstance(s_.upper, ast.UnaryOp)):
+      picked = 'head'
+    elif s_.upper is None and s_.step is None and \
+            isinstance(s_.lower, ast.UnaryOp) and \
+            isinstance(s_.lower.op, ast.USub):
+      picked = 'tail'
+    else:
+      return None
+  if picked is None:
+    return None
+  largest = largest_first if picked == 'head' else not largest_first
+  return ('largest' if largest else 'smallest', arg)
+
+
+def rule_rca_projection(repo, rep):
+  R = 'R-FORM:rca-fisher-projection'
+  rep.rule(R, 'when RCA reduces the dimension, the retained directions are '
+           'eigenvectors of T^-1 C (T total, C inner covariance) with the '
+           'smallest eigenvalues, or of C^-1 T with the largest - those '
+           'maximising total-to-within-chunk variance - and the reduction '
+           'is taken whenever dim < d')
+  from .. import guardeval
+  import copy
+  h0 = repo.get_func('rca.RCA.fit')
+  rep.analysed(h0)
+  h = astutil.inline_helpers(repo, h0)
+
+  def dn(e):
+    d = repo.dotted(h.module, e)
+    return canon(d) if d else None
+  body_stmts = [n for n in ast.walk(h.node) if isinstance(n, ast.Assign)]
+  centred = set()
+  for n in body_stmts:
+    if isinstance(n.value, ast.Call) and (repo.dotted(h.module, n.value.func)
+                                          or '').endswith(
+            '_chunk_mean_centering') and isinstance(n.targets[0], ast.Tuple):
+      centred.add(ast.unparse(n.targets[0].elts[1]))
+  # kind of each covariance-valued name: inner / total
+  kind = {}
+
+  def cov_kind(e):
+    for c in ast.walk(e):
+      if isinstance(c, ast.Call) and dn(c.func) == canon('numpy.cov') and \
+              c.args:
+        return 'inner' if ast.unparse(c.args[0]) in centred else 'total'
+    return None
+  defs = {}
+  for n in body_stmts:
+    for tg, val in astutil.assign_pairs(n):
+      defs.setdefault(tg, []).append((n, val))
+      k = cov_kind(val)
+      if k and tg not in kind:
+        kind[tg] = k          # first definition (before any projection)
+
+  def kind_of(e):
+    if isinstance(e, ast.Name):
+      return kind.get(e.id)
+    return cov_kind(e)
+
+  def ratio_of(e, depth=0):
+    """('within/total' | 'total/within') of the matrix expression e"""
+    if depth > 4:
+      return None
+    if isinstance(e, ast.Name) and e.id in defs and len(defs[e.id]) == 1:
+      return ratio_of(defs[e.id][0][1], depth + 1)
+    if isinstance(e, ast.Subscript) and isinstance(e.value, ast.Call) and \
+            dn(e.value.func) in (canon('numpy.linalg.lstsq'),
+                                 canon('scipy.linalg.lstsq')) and \
+            ast.unparse(e.slice) == '0' and len(e.value.args) >= 2:
+      P, Q = kind_of(e.value.args[0]), kind_of(e.value.args[1])
+    elif isinstance(e, ast.Call) and dn(e.func) in (
+            canon('numpy.linalg.solve'), canon('scipy.linalg.solve')) and \
+            len(e.args) >= 2:
+      P, Q = kind_of(e.args[0]), kind_of(e.args[1])
+    else:
+      inv = None
+      if isinstance(e, ast.Call) and isinstance(e.func, ast.Attribute) and \
+              e.func.attr == 'dot' and len(e.args) == 1:
+        inv, other = e.func.value, e.args[0]
+      elif isinstance(e, ast.BinOp) and isinstance(e.op, ast.MatMult):
+        inv, other = e.left, e.right
+      if inv is not None and isinstance(inv, ast.Call) and dn(inv.func) in (
+              canon('numpy.linalg.inv'), canon('numpy.linalg.pinv'),
+              canon('scipy.linalg.inv'), canon('scipy.linalg.pinv'),
+              canon('scipy.linalg.pinvh')) and inv.args:
+        P, Q = kind_of(inv.args[0]), kind_of(other)
+      else:
+        return None
+    if (P, Q) == ('total', 'inner'):
+      return 'within/total'
+    if (P, Q) == ('inner', 'total'):
+      return 'total/within'
+    return None
+  eigs = []
+  for n in body_stmts:
+    if isinstance(n.value, ast.Call) and dn(n.value.func) in EIG_FUNCS and \
+            isinstance(n.targets[0], ast.Tuple) and \
+            len(n.targets[0].elts) == 2 and n.value.args:
+      eigs.append(n)
+  if not eigs:
+    rep.unknown(R, 'rca.RCA.fit:eig', site(h), 'no eigen-decomposition found')
+    return
+  for n in eigs:
+    key = 'rca.RCA.fit:retained-directions'
+    call = n.value
+    if len(call.args) >= 2 and dn(call.func) in (
+            canon('scipy.linalg.eigh'), canon('scipy.linalg.eig')):
+      P, Q = kind_of(call.args[1]), kind_of(call.args[0])
+      ratio = {('total', 'inner'): 'within/total',
+               ('inner', 'total'): 'total/within'}.get((P, Q))
+    else:
+      ratio = ratio_of(call.args[0])
+    if ratio is None:
+      rep.unknown(R, key, site(h, n), 'matrix %s of the eigenproblem is not '
+                  'one of the recognised quotients of the total and inner '
+                  'covariance' % ast.unparse(call.args[0]))
+      continue
+    vals = {ast.unparse(n.targets[0].elts[0]): 1}     # alias -> sign
+    sels = []
+    for m in sorted(body_stmts, key=lambda x: x.lineno):
+      if m.lineno <= n.lineno:
+        continue
+      for tg, val in astutil.assign_pairs(m):
+        for x in ast.walk(val):       # outermost match first
+          sk = _selection_kind(repo, h, x) \
+              if isinstance(x, ast.Subscript) else None
+          if sk is not None:
+            sels.append((m, sk, dict(vals)))
+            break
+      new = {}
+      for tg, val in astutil.assign_pairs(m):
+        base, sg = val, 1
+        while True:
+          if isinstance(base, ast.Attribute) and base.attr == 'real':
+            base = base.value
+          elif isinstance(base, ast.UnaryOp) and \
+                  isinstance(base.op, ast.USub):
+            base, sg = base.operand, -sg
+          elif isinstance(base, ast.Call) and dn(base.func) == canon(
+                  'numpy.real') and base.args:
+            base = base.args[0]
+          else:
+            break
+        new[tg] = (vals[ast.unparse(base)] * sg
+                   if ast.unparse(base) in vals else None)
+      for tg, sg in new.items():
+        if sg is None:
+          vals.pop(tg, None)
+        else:
+          vals[tg] = sg
+    if not sels:
+      rep.unknown(R, key, site(h, n), 'selection of eigenvalues not found')
+      continue
+    for m, (which, arg), al in sels:
+      if ast.unparse(arg) not in al:
+        rep.unknown(R, key, site(h, m), 'sorted quantity %s is not the '
+                    'eigenvalues' % ast.unparse(arg))
+        continue
+      if al[ast.unparse(arg)] < 0:
+        which = {'largest': 'smallest', 'smallest': 'largest'}[which]
+      good = (ratio, which) in (('within/total', 'smallest'),
+                                ('total/within', 'largest'))
+      if good:
+        rep.derived(R, key, site(h, m), sample=dict(rule=R, quotient=ratio,
+                                                    kept=which))
+      else:
+        rep.refuted(R, key, site(h, m), 'the %s eigenvalues of the %s '
+                    'covariance quotient are kept: these directions minimise '
+                    'total-to-within-chunk variance' % (which, ratio))
+  # the branch: stores that do not use the eigenvectors must be unreachable
+  # when dim < d
+  dimnames = set()
+  for n in body_stmts:
+    if isinstance(n.targets[0], ast.Name) and isinstance(n.value, ast.Call) \
+            and (ast.unparse(n.value.func).endswith('_check_dimension') or
+                 ast.unparse(n.value.func).endswith('_check_n_components')):
+      dimnames.add(n.targets[0].id)
+  dnames = set()
+  for n in body_stmts:
+    for tg, val in astutil.assign_pairs(n):
+      if ast.unparse(val) in ('X.shape[1]', 'X.shape[-1]'):
+        dnames.add(tg)
+    if isinstance(n.targets[0], ast.Tuple) and \
+            ast.unparse(n.value) == 'X.shape' and len(n.targets[0].elts) == 2:
+      dnames.add(ast.unparse(n.targets[0].elts[1]))
+  if not dimnames:
+    rep.unknown(R, 'rca.RCA.fit:reduction-branch', site(h), 'dimension '
+                'variable not found')
+    return
+  for st in eigs:
+    key = 'rca.RCA.fit:reduction-branch'
+    res = {}
+    for (dim, d) in ((1, 2), (2, 5), (4, 5), (1, 7)):
+      names = {nm: dim for nm in dimnames}
+      names.update({nm: d for nm in dnames})
+
+      def tev(test, names=names, d=d):
+        t2 = _DimSubst(names, d).visit(copy.deepcopy(test))
+        return guardeval.ev(t2, {})
+      res[(dim, d)] = guardeval.reaches(h.node.body, st, tev)
+    bad = [k for k, v in res.items() if v == 'no']
+    maybe = [k for k, v in res.items() if v == 'maybe']
+    if bad:
+      rep.refuted(R, key, site(h, st), 'with dim = %d < d = %d the '
+                  'projection onto the retained directions is not computed: '
+                  'the stored transformation keeps all d dimensions'
+                  % (bad[0][0], bad[0][1]))
+    elif maybe:
+      rep.unknown(R, key, site(h, st), 'branch condition not decided')
+    else:
+      rep.derived(R, key, site(h, st))
+
+
 def check(repo, rep, tier):
   rule_order_statistics(repo, rep)
   rule_cov_sites(repo, rep)
   rule_covariance(repo, rep)
+  rule_covariance_branch(repo, rep)
   rule_rca(repo, rep)
   rule_rca_whitening(repo, rep)
+  rule_rca_projection(repo, rep)
   rule_lfda(repo, rep)
   rule_lfda_scatter(repo, rep)
+  rule_lfda_affinity(repo, rep)
+  rule_lfda_solver(repo, rep)
 
 
